@@ -220,3 +220,30 @@ Proof.
   destruct (mem (p_src p) (c_known c)); [inversion Eg|].
   destruct (p_hdr_ok p && negb (p_enc p)); inversion Eg.
 Qed.
+
+(* converse of forward_targets: an added announcement addressed to all routers is forwarded by a
+   non-stub router to EVERY link that is not excluded (lite peers unless this router is lite
+   itself, the origin, the delivering peer, hop-list members) *)
+Theorem forward_targets_complete cfg self lite now t links recv a t' fw lp ll lt llite :
+  handle_announce cfg self lite false now t links recv a = Some (t', true, fw) ->
+  a_dst_all a = true -> In (lp, ll, lt, llite) links ->
+  (llite = true -> lite = true) -> lp <> a_origin a -> lp <> fst (fst (fst recv)) -> ~ In lp (map r_signer (a_chain a)) ->
+  In lp fw.
+Proof.
+  unfold handle_announce. destruct recv as [[[peer label] latency] rl]. cbn [fst snd].
+  destruct (parse_chain self (a_chain a) 1) as [hops| |] eqn:Hp; try discriminate.
+  destruct (parse_chain_hops _ _ _ _ Hp) as [Hh _].
+  destruct (match hops with [] => negb (a_origin a =? peer) | h :: _ => negb (h_router h =? peer) end); [discriminate|].
+  intros H Hall Hin Hlite Ho Hpeer Hch.
+  match type of H with context [add_route cfg now t ?E] => destruct (add_route cfg now t E) as [[t1 ad]|c|] end; try discriminate.
+  destruct ad; [|discriminate]. inversion H; subst t' fw. rewrite Hall.
+  apply in_map_iff. exists (lp, ll, lt, llite). split; [reflexivity|]. apply filter_In. split; [exact Hin|].
+  apply andb_true_iff. split; [apply andb_true_iff; split; [apply andb_true_iff; split|]|].
+  - destruct llite; [rewrite (Hlite eq_refl)|]; reflexivity.
+  - apply negb_true_iff, N.eqb_neq. exact Ho.
+  - apply negb_true_iff, N.eqb_neq. exact Hpeer.
+  - apply negb_true_iff. destruct (existsb (fun h => h_router h =? lp) hops) eqn:He; [|reflexivity].
+    exfalso. apply existsb_exists in He. destruct He as (h & Hhin & Heq). apply N.eqb_eq in Heq.
+    apply Hch. rewrite Hh in Hhin. apply in_map_iff in Hhin. destruct Hhin as (r & <- & Hr). cbn [h_router] in Heq.
+    apply in_map_iff. exists r. split; [exact Heq|exact Hr].
+Qed.
